@@ -103,4 +103,136 @@ theorem encodeData_pos {o : Oracle} {s s' : St} {site : Nat} {il ff : Bool} {req
       · rw [hn, ← hu]; exact Nat.le_trans (Nat.min_le_right _ _) hb
     exact pos_arith h1 h2 hn' p1 p2 q1 q2 q3
 
+theorem encPayload_q01 {s s' : St} {ans : Ans} {w0 w : Writer} {hdr : Nat} {il ff res : Bool}
+    (h : encPayload s ans w0 w hdr il ff = .ok (s', res))
+    (hq : s.params.quality = 0 ∨ s.params.quality = 1) (heq : s.lastFlushPos = s.lastProcessedPos) :
+    s'.lastFlushPos = s'.lastProcessedPos := by
+  unfold encPayload at h
+  simp only at h
+  split_all h
+  all_goals first
+    | (simp at h; done)
+    | (simp only [Out.ok.injEq, Prod.mk.injEq] at h; obtain ⟨rfl, rfl⟩ := h; simp_all; done)
+
+/-- with `is_last` or `force_flush`, a successful `encode_data` leaves nothing unflushed -/
+theorem encPayload_forced {s s' : St} {ans : Ans} {w0 w : Writer} {hdr : Nat} {il ff res : Bool}
+    (h : encPayload s ans w0 w hdr il ff = .ok (s', res)) (hf : il = true ∨ ff = true)
+    (h1 : s.lastFlushPos ≤ s.lastProcessedPos) (h2 : s.lastProcessedPos ≤ s.inputPos) (h3 : s.inputPos < two64)
+    (hq : (s.params.quality = 0 ∨ s.params.quality = 1) → s.lastFlushPos = s.lastProcessedPos) :
+    s'.lastFlushPos = s.inputPos := by
+  have hu : s.unprocessed = s.inputPos - s.lastProcessedPos := wsub64_eq h2 h3
+  unfold encPayload at h
+  simp only at h
+  split at h
+  · simp at h
+  · split at h
+    · rename_i hq'
+      have heq := hq hq'
+      split at h
+      · rename_i hz
+        simp only [Out.ok.injEq, Prod.mk.injEq] at h
+        obtain ⟨rfl, rfl⟩ := h
+        have hz1 : s.unprocessed = 0 := hz.1
+        simp only
+        omega
+      · split at h
+        · simp at h
+        · simp only [Out.ok.injEq, Prod.mk.injEq] at h
+          obtain ⟨rfl, rfl⟩ := h
+          rfl
+    · split at h
+      · rename_i hacc
+        rcases hf with hf | hf
+        · simp [hf] at hacc
+        · simp [hf] at hacc
+      · split at h
+        · rename_i hb
+          simp only [Out.ok.injEq, Prod.mk.injEq] at h
+          obtain ⟨rfl, rfl⟩ := h
+          exact hb.2.symm
+        · split at h
+          · simp at h
+          · simp only [Out.ok.injEq, Prod.mk.injEq] at h
+            obtain ⟨rfl, rfl⟩ := h
+            rfl
+
+theorem encPrelude_params {s s' : St} {w w' : Writer} {hdr hdr' bytes : Nat}
+    (h : encPrelude s w hdr bytes = .ok (s', w', hdr')) : s'.params = s.params ∧ s'.inputPos = s.inputPos := by
+  have := (encPrelude_frame h).1
+  rw [St.frame_eq_iff] at this
+  exact ⟨this.1, this.2.1⟩
+
+theorem encRest_q01 {m : St × Writer × Nat} {ans : Ans} {w0 : Writer} {bytes : Nat} {il ff res : Bool} {s' : St}
+    (h : encRest m ans w0 bytes il ff = .ok (s', res))
+    (hq : m.1.params.quality = 0 ∨ m.1.params.quality = 1) (heq : m.1.lastFlushPos = m.1.lastProcessedPos) :
+    s'.lastFlushPos = s'.lastProcessedPos := by
+  unfold encRest at h
+  split at h
+  · simp at h
+  · simp at h
+  · rename_i s2 w hdr hpre
+    obtain ⟨pp, _⟩ := encPrelude_params hpre
+    have heq2 : s2.lastFlushPos = s2.lastProcessedPos := by
+      rcases encPrelude_pos hpre with ⟨p1, p2⟩ | ⟨p1, p2⟩ <;> omega
+    exact encPayload_q01 h (by rw [pp]; exact hq) heq2
+
+theorem encRest_forced {m : St × Writer × Nat} {ans : Ans} {w0 : Writer} {bytes : Nat} {il ff res : Bool} {s' : St}
+    (h : encRest m ans w0 bytes il ff = .ok (s', res)) (hf : il = true ∨ ff = true)
+    (h1 : m.1.lastFlushPos ≤ m.1.lastProcessedPos) (h2 : m.1.lastProcessedPos ≤ m.1.inputPos) (h3 : m.1.inputPos < two64)
+    (hb : bytes ≤ m.1.inputPos - m.1.lastProcessedPos)
+    (hq : (m.1.params.quality = 0 ∨ m.1.params.quality = 1) → m.1.lastFlushPos = m.1.lastProcessedPos) :
+    s'.lastFlushPos = m.1.inputPos := by
+  unfold encRest at h
+  split at h
+  · simp at h
+  · simp at h
+  · rename_i s2 w hdr hpre
+    obtain ⟨pp, pip⟩ := encPrelude_params hpre
+    have hpos : s2.lastFlushPos ≤ s2.lastProcessedPos ∧ s2.lastProcessedPos ≤ s2.inputPos ∧
+        (m.1.lastFlushPos = m.1.lastProcessedPos → s2.lastFlushPos = s2.lastProcessedPos) := by
+      rw [pip]
+      rcases encPrelude_pos hpre with ⟨p1, p2⟩ | ⟨p1, p2⟩
+      · omega
+      · have : min 2 bytes ≤ bytes := Nat.min_le_right _ _
+        omega
+    have := encPayload_forced h hf hpos.1 hpos.2.1 (by rw [pip]; exact h3) (by rw [pp]; intro hh; exact hpos.2.2 (hq hh))
+    rw [this, pip]
+
+/-- quality 0/1: `last_flush_pos_` and `last_processed_pos_` move together -/
+theorem encodeData_q01 {o : Oracle} {s s' : St} {site : Nat} {il ff : Bool} {req : Req}
+    (h : encodeData o s site il ff = .ok (s', true, req))
+    (hq : s.params.quality = 0 ∨ s.params.quality = 1) (heq : s.lastFlushPos = s.lastProcessedPos) :
+    s'.lastFlushPos = s'.lastProcessedPos := by
+  obtain ⟨_, hc⟩ := encodeData_ok_cases h
+  rcases hc with ⟨_, hh, _⟩ | ⟨_, _, hh, _⟩ | ⟨_, _, hrest⟩
+  · simp at hh
+  · simp at hh
+  · obtain ⟨m1, m2, m3, _⟩ := encMagic_frame (encEntry s il) s.carry
+    obtain ⟨e1, e2, e3, _⟩ := encEntry_fields s il
+    have a := m1; rw [St.frame_eq_iff] at a
+    have b := e1; rw [St.frame_eq_iff] at b
+    refine encRest_q01 hrest (by rw [a.1, b.1]; exact hq) ?_
+    rw [m2, m3, e2, e3]; exact heq
+
+/-- a forced (`is_last` / `force_flush`) `encode_data` ends with `last_flush_pos_ = input_pos_` -/
+theorem encodeData_forced {o : Oracle} {s s' : St} {site : Nat} {il ff : Bool} {req : Req}
+    (h : encodeData o s site il ff = .ok (s', true, req)) (hf : il = true ∨ ff = true)
+    (h1 : s.lastFlushPos ≤ s.lastProcessedPos) (h2 : s.lastProcessedPos ≤ s.inputPos) (h3 : s.inputPos < two64)
+    (hq : (s.params.quality = 0 ∨ s.params.quality = 1) → s.lastFlushPos = s.lastProcessedPos) :
+    s'.lastFlushPos = s.inputPos := by
+  obtain ⟨_, hc⟩ := encodeData_ok_cases h
+  rcases hc with ⟨_, hh, _⟩ | ⟨_, _, hh, _⟩ | ⟨_, _, hrest⟩
+  · simp at hh
+  · simp at hh
+  · obtain ⟨m1, m2, m3, _⟩ := encMagic_frame (encEntry s il) s.carry
+    obtain ⟨e1, e2, e3, _⟩ := encEntry_fields s il
+    have a := m1; rw [St.frame_eq_iff] at a
+    have b := e1; rw [St.frame_eq_iff] at b
+    have hu : s.unprocessed = s.inputPos - s.lastProcessedPos := wsub64_eq h2 h3
+    have hip : (encMagic (encEntry s il) s.carry).1.inputPos = s.inputPos := a.2.1.trans b.2.1
+    have := encRest_forced hrest hf (by rw [m2, m3, e2, e3]; exact h1) (by rw [m3, e3, hip]; exact h2) (by rw [hip]; exact h3)
+      (by rw [hip, m3, e3, ← hu]; exact Nat.mod_le _ _)
+      (by rw [a.1, b.1, m2, m3, e2, e3]; exact hq)
+    rw [this, hip]
+
 end BV.Stream
